@@ -664,4 +664,12 @@ def hostCaseI (idna : Bytes → Option Bytes) (thr : Nat) (l : List Bytes) (rhos
   | .idnaErr => .idnaErr
   | .dup => .dup
 
+/-! ### `not` (matchers.go `MatchNot`): `{"not": [{"host": […]}, {"path": […]}]}` matches iff none of
+    its matcher sets does -/
+
+def notCase (thr : Nat) (hosts pats : List Bytes) (rhost path esc : Bytes) : HostRes :=
+  match hostCase thr hosts rhost with
+  | .dup => .dup
+  | .res b => .res (!(b || pathCase pats path esc))
+
 end CaddyModel.C06
